@@ -19,7 +19,7 @@ Inductive json :=
 | VArr (l : list json) | VObj (m : list (str * json)).
 
 Inductive schema :=
-| SInt (c : numc) | SNum | SStr (lo hi : option N) | SBool | SNullT | SAnyT
+| SInt (c : numc) | SNum | SNumC (c : numc) | SStr (lo hi : option N) | SBool | SNullT | SAnyT
 | SEnum (vals : list str)
 | SNullable (s : schema)
 | SArr (s : schema) (lo hi : option N)
@@ -30,7 +30,7 @@ Inductive schema :=
 Record finfo := { f_py : str; f_alias : option str; f_req : bool; f_null : bool }.
 
 Inductive pytype :=
-| TInt (k : kwargs) | TFloat | TStr (lo hi : option N) | TBool | TNone | TAny
+| TInt (k : kwargs) | TFloat | TFloatC (k : kwargs) | TStr (lo hi : option N) | TBool | TNone | TAny
 | TEnum (vals : list str)
 | TOpt (t : pytype)
 | TList (t : pytype) (lo hi : option N)
@@ -56,6 +56,7 @@ Fixpoint valid (s : schema) (v : json) {struct s} : bool :=
   match s with
   | SInt c => match v with VInt z => sat_schema c z | _ => false end
   | SNum => match v with VInt _ | VFlt _ => true | _ => false end
+  | SNumC c => match v with VInt z => sat_schema_h c (2 * z) | VFlt h => sat_schema_h c h | _ => false end
   | SStr lo hi => match v with VStr x => len_ok lo hi (List.length x) | _ => false end
   | SBool => match v with VBool _ => true | _ => false end
   | SNullT => v_is_null v
@@ -82,6 +83,7 @@ Fixpoint valid_relaxed (s : schema) (v : json) {struct s} : bool :=
   match s with
   | SInt c => match v with VInt z => sat_schema c z | _ => false end
   | SNum => match v with VInt _ | VFlt _ => true | _ => false end
+  | SNumC c => match v with VInt z => sat_schema_h c (2 * z) | VFlt h => sat_schema_h c h | _ => false end
   | SStr lo hi => match v with VStr x => len_ok lo hi (List.length x) | _ => false end
   | SBool => match v with VBool _ => true | _ => false end
   | SNullT => v_is_null v
@@ -150,6 +152,8 @@ Fixpoint gen (o : opts) (fc rq : bool) (p : pos) (s : schema) {struct s} : pytyp
   | SInt c => match cnormalize (if drops_bounds fc p then c_none else c) with
               | Some c' => TInt (ctranslate c') | None => TError end
   | SNum => TFloat
+  | SNumC c => match cnormalize (if drops_bounds fc p then c_none else c) with
+               | Some c' => TFloatC (ktranslate_h c') | None => TError end
   | SStr lo hi => if drops_bounds fc p then TStr None None else TStr lo hi
   | SBool => TBool
   | SNullT => TNone
@@ -177,6 +181,7 @@ Fixpoint accepts (t : pytype) (v : json) {struct t} : bool :=
   match t with
   | TInt k => match v with VInt z => sat_model k z | _ => false end
   | TFloat => match v with VInt _ | VFlt _ => true | _ => false end
+  | TFloatC k => match v with VInt z => sat_model_h k (2 * z) | VFlt h => sat_model_h k h | _ => false end
   | TStr lo hi => match v with VStr x => len_ok lo hi (List.length x) | _ => false end
   | TBool => match v with VBool _ => true | _ => false end
   | TNone => v_is_null v
@@ -209,6 +214,7 @@ Fixpoint nodup_str (l : list str) : bool :=
 Fixpoint supported (s : schema) : bool :=
   match s with
   | SInt c => match cnormalize c with Some _ => integral c | None => false end
+  | SNumC c => match cnormalize c with Some _ => true | None => false end
   | SNullable s' => supported s'
   | SArr s' _ _ => supported s'
   | SMap s' => supported s'
@@ -224,6 +230,7 @@ Definition no_counts (s : schema) : bool := match s with SArr _ None None => tru
 Fixpoint strict (fc : bool) (p : pos) (s : schema) : bool :=
   match s with
   | SInt c => negb (drops_bounds fc p) || c_is_none c
+  | SNumC c => negb (drops_bounds fc p) || c_is_none c
   | SStr lo hi => negb (drops_bounds fc p) || (on_is_none lo && on_is_none hi)
   | SNullable s' => strict fc p s'
   | SArr s' lo hi => (keeps_counts fc p || no_counts s) && strict fc PIn s'
@@ -259,6 +266,11 @@ Fixpoint show_ty (t : pytype) {struct t} : str :=
   | TInt k => of_string "(int " ++ show_oz (k_ge k) ++ sp ++ show_oz (k_le k) ++ sp ++ show_oz (k_gt k) ++ sp
               ++ show_oz (k_lt k) ++ sp ++ show_oz (k_mult k) ++ of_string ")"
   | TFloat => of_string "(float)"
+  | TFloatC k => match k_ge k, k_le k, k_gt k, k_lt k with
+                 | None, None, None, None => of_string "(float)"      (* bounds dropped: prints like a plain float *)
+                 | _, _, _, _ => of_string "(floatc " ++ show_oz (k_ge k) ++ sp ++ show_oz (k_le k) ++ sp ++ show_oz (k_gt k) ++ sp
+                                 ++ show_oz (k_lt k) ++ of_string ")"
+                 end
   | TStr lo hi => of_string "(str " ++ show_on lo ++ sp ++ show_on hi ++ of_string ")"
   | TBool => of_string "(bool)"
   | TNone => of_string "(none)"
@@ -288,6 +300,7 @@ Definition is_pin (p : pos) : bool := match p with PIn => true | _ => false end.
 Fixpoint place_free (p : pos) (s : schema) : bool :=
   match s with
   | SInt c => negb (is_pval p) || c_is_none c
+  | SNumC c => negb (is_pval p) || c_is_none c
   | SStr lo hi => negb (is_pval p) || (on_is_none lo && on_is_none hi)
   | SNullable s' => place_free p s'
   | SArr s' lo hi => (negb (is_pin p) || no_counts s) && place_free PIn s'
@@ -301,6 +314,7 @@ Fixpoint place_free (p : pos) (s : schema) : bool :=
 Fixpoint to_d6 (s : schema) : schema :=
   match s with
   | SInt c => SInt (to_draft6 c)
+  | SNumC c => SNumC (to_draft6 c)
   | SNullable s' => SNullable (to_d6 s')
   | SArr s' lo hi => SArr (to_d6 s') lo hi
   | SMap s' => SMap (to_d6 s')
@@ -317,6 +331,7 @@ Fixpoint show_schema (s : schema) {struct s} : str :=
   | SInt c => of_string "I " ++ show_oz (c_min c) ++ sp ++ show_oz (c_max c) ++ sp ++ show_excl (c_xmin c) ++ sp
               ++ show_excl (c_xmax c) ++ sp ++ show_oz (c_mult c)
   | SNum => [78]
+  | SNumC c => of_string "F " ++ show_oz (c_min c) ++ sp ++ show_oz (c_max c) ++ sp ++ show_excl (c_xmin c) ++ sp ++ show_excl (c_xmax c)
   | SStr lo hi => of_string "S " ++ show_on lo ++ sp ++ show_on hi
   | SBool => [66]
   | SNullT => [90]
